@@ -92,20 +92,33 @@ class C14(Prop):
     level_note = ("trusted: Lean kernel + 3 standard axioms; hand models tied to the code by (a) the real WriteBuf built through "
                   "its From impls and consumed through its Buf impl under the same patterns (engine wbuf), (b) real h3 "
                   "server/client objects over SimQuic under random API programs x configurations x write-credit patterns (engine "
-                  "out): with grease off the per-stream byte logs are predicted literally, with grease on their shape; on every "
-                  "run every log the harness prints is judged by the Lean specification (RFC segmenter, not h3's encoder). QPACK "
-                  "field sections are opaque (C11), GOAWAY id choice is C08's, Config->Settings details are C13's")
+                  "out): with grease off the per-stream byte logs are predicted literally; with grease on - with and without "
+                  "write / stream credit limits - their shape: per stream the stream type, every frame's kind, length and payload "
+                  "in order, FIN, a write in progress and where the last frame is cut, with only the three random reserved "
+                  "identifiers (setting id, frame type, stream type) masked, the model running with reserved ids that are 8-byte "
+                  "varints like the real draws; on every run every log the harness prints is judged by the Lean specification "
+                  "(RFC segmenter, not h3's encoder). QPACK field sections are opaque (C11), GOAWAY id choice is C08's, "
+                  "Config->Settings details are C13's")
     rule = ("cases: wbuf = every frame kind x payload sizes 0,1,2,63,64,16383,16384 x ids at every varint boundary x patterns "
             "(bytewise, zeros interleaved, random, bare advance across the header end); out = random API programs in both roles "
             "(1-3 requests, send_data sizes 0,1,2,63,64,16383,16384 and a few KiB, trailers, finish, shutdown(n), drops) x "
             "g0/g1, wt, ec, dg, mfs, wts x write credit wc=0..k with grants of 1,2,3,7,100 bytes interleaved, uni/bidi stream "
-            "credit withheld and granted; non-trivial = the implementation wrote at least one frame beyond the three stream "
-            "headers (out) / returned bytes (wbuf)")
+            "credit withheld and granted; plus, with grease on and credit limited: finish() with the grease frame cut at every "
+            "offset 0..16 and under grants of 1,2,3,7 bytes, responses / requests with 2-4 DATA frames and trailers under "
+            "dripping credit, the grease stream refused by uni-stream credit and granted later (it moves only with the next "
+            "control frame of the peer) and its write cut by wc, GOAWAY queued behind a partly written SETTINGS frame; "
+            "non-trivial = the implementation wrote at least one frame beyond the three stream headers (out) / returned "
+            "bytes (wbuf)")
     trusted = ["bytes::Bytes Buf impl for payloads", "SimQuic's poll_ready loop respects the Buf contract (chunk, advance <= chunk length)",
                "field-section annotations (#fs) are obtained from the real encoder by a probe run and are inputs of the model"]
     assumptions = ["R-14: API programs are sequences of calls each awaited to completion; a send future dropped in mid-write is outside the model",
                    "after FIN the transport refuses further writes (RFC 9000 §3.1); programs do not call send_* after finish on the same stream",
-                   "payload Buf is contiguous (Bytes)"]
+                   "payload Buf is contiguous (Bytes)",
+                   "engine out, grease on with credit limits: the harness seeds fastrand with a hash of the case line, so the three "
+                   "reserved ids are a function of the line; the model assumes each is an 8-byte varint (id >= 2^30; a draw gives a "
+                   "smaller one with probability ~2^-32). A line whose hash yields a smaller id would show as a correspondence "
+                   "difference (byte counts under write credit, `g<k>` fragments), deterministically on every replay, not as a "
+                   "violation; the specification verdict does not depend on it"]
 
     def __init__(self):
         self.fs_cache = {}
@@ -348,8 +361,163 @@ class C14(Prop):
             L.append("out %s %s %s" % ("server" if server else "client", cfgs, " ".join(ops)))
         return L
 
+    def frame_len(self, kind, arg):
+        """bytes of the HEADERS frame a header-sending call writes (type, length, field section)"""
+        fs = self.fs_of(kind, arg)
+        n = len(fs or [])
+        return 1 + (1 if n < 64 else 2) + n
+
+    def grease_backpressure_cases(self, tier, rng):
+        """grease on and write / stream credit limited: the reserved ids are 8-byte varints on both sides, so that what fits
+        the credit is the same; the per-stream shapes (frame kinds, order, lengths, cut points) are compared"""
+        big = tier == "thorough"
+        L = []
+        rq0 = REQUESTS[0]
+
+        def drip(sid, total):
+            g, n = [], 0
+            while n < total:
+                k = rng.choice([1, 2, 3, 7])
+                g.append("gw%d:%d" % (sid, k))
+                n += k
+            return g
+
+        def base_cfg(server, *extra):
+            c = self.cfg(rng, server, True, False).split(",")
+            return ",".join(c + [e for e in extra if e])
+
+        def up(server, wc):
+            """credit that lets the three initial streams complete"""
+            own = [3, 7, 11] if server else [2, 6, 10]
+            return ["gw%d:%d" % (own[0], 100)] + (["gw%d:1" % own[1], "gw%d:1" % own[2]] if wc == 0 else [])
+
+        def open_request(server, sid, rq, cfgs):
+            if server:
+                mfs_cfg = ",".join(p for p in cfgs.split(",") if p.startswith("mfs=")) or "g0"
+                return ["o%d" % sid, "s%d:%s" % (sid, hx(self.request_frame(rq))), "conn.A"] + \
+                    self.hinted("q%d.res" % sid, "res", rq, mfs_cfg)
+            return self.hinted("snd.R:" + rq, "R", rq)
+
+        # (a) `finish()`: the grease frame (8-byte type, length 6, payload `grease` = 15 bytes) cut at every offset, behind a
+        #     HEADERS frame that went out whole; then the same with the credit dripping in grants of 1,2,3,7 bytes
+        for server in (True, False):
+            role = "server" if server else "client"
+            h = self.frame_len("sr", "200:-") if server else self.frame_len("R", rq0)
+            for k in range(0, 17):
+                cfgs = "g1,wc=0"
+                ops = up(server, 0) + open_request(server, 0, rq0, cfgs)
+                if server:
+                    ops += self.hinted("q0.sr:200:-", "sr", "200:-")
+                ops += ["gw0:%d" % h, "q0.fi"] + (["gw0:%d" % k] if k else [])
+                L.append("out %s %s %s" % (role, cfgs, " ".join(ops)))
+            for _ in range(60 if big else 20):
+                wc = rng.choice([0, 1, 2, 3, 5, 7, 20])
+                cfgs = base_cfg(server, "wc=%d" % wc)
+                ops = up(server, wc) + open_request(server, 0, rq0, cfgs)
+                if server:
+                    ops += self.hinted("q0.sr:200:-", "sr", "200:-")
+                ops += ["gw0:%d" % h]
+                if rng.random() < 0.5:
+                    ops.append("q0.sd:" + hx(body(rng.choice([0, 1, 2, 5]), rng)))
+                    ops.append("gw0:10")
+                ops += ["q0.fi"] + drip(0, rng.randrange(0, 22))
+                # a second request: its `finish` has no grease frame any more
+                if rng.random() < 0.3:
+                    ops += ["gw0:100"] + open_request(server, 4, rq0, cfgs) + ["gw4:%d" % (h + 100), "q4.fi"]
+                L.append("out %s %s %s" % (role, cfgs, " ".join(ops)))
+
+        # (b) several DATA frames and trailers on one request stream, credit in small grants in between and after
+        for _ in range(240 if big else 80):
+            server = rng.random() < 0.6
+            role = "server" if server else "client"
+            wc = rng.choice([0, 1, 2, 3, 5, 7, 20, 26, 27, 100])
+            cfgs = base_cfg(server, "wc=%d" % wc)
+            ops = up(server, wc) + ["gw0:%d" % rng.choice([0, 40, 100])] * (0 if server else 1)
+            ops += open_request(server, 0, rng.choice(REQUESTS), cfgs)
+            calls = []
+            if server:
+                rs = rng.choice(RESPONSES)
+                calls.append(self.hinted("q0.sr:%s" % rs, "sr", rs))
+            for _ in range(rng.choice([2, 2, 3, 4])):
+                calls.append(["q0.sd:" + hx(body(rng.choice([0, 1, 2, 5, 17, 63, 64, 100]), rng))])
+            tr = rng.choice(TRAILERS)
+            calls.append(self.hinted("q0.st:%s" % tr, "st", tr))
+            calls.append(["q0.fi"])
+            for c in calls:
+                ops += c
+                r = rng.random()
+                if r < 0.5:
+                    ops += drip(0, rng.randrange(1, 30))
+                elif r < 0.8:
+                    ops.append("gw0:%d" % rng.choice([40, 100, 200]))
+            r = rng.random()
+            if r < 0.4:
+                ops.append("gw0:100000")
+            elif r < 0.7:
+                ops += drip(0, rng.randrange(1, 60))
+            L.append("out %s %s %s" % (role, cfgs, " ".join(ops)))
+
+        # (c) the grease stream: no uni-stream credit when `poll_grease_stream` first runs, credit granted later; it is
+        #     polled again only together with the next frame on the peer's control stream, so is its write under `wc`
+        for _ in range(180 if big else 60):
+            server = rng.random() < 0.5
+            role = "server" if server else "client"
+            main = "conn.A" if server else "drv.W"
+            ctl = 2 if server else 3
+            gsid = 15 if server else 14
+            uc = rng.choice([0, 3, 3, 3, 4])
+            wc = rng.choice([None, 0, 1, 2, 5, 7, 8, 9, 12, 16, 17, 20])
+            cfgs = base_cfg(server, "uc=%d" % uc, "wc=%d" % wc if wc is not None else "")
+            ops = (["gu3"] if uc == 0 else []) + (up(server, wc) if wc is not None else [])
+            goaway = [0x3c]
+
+            def ctl_frame():
+                # frames the endpoint accepts on the peer's control stream after SETTINGS: a server ignores CANCEL_PUSH and
+                # MAX_PUSH_ID, a client takes GOAWAY with request ids that do not grow
+                if server:
+                    return "s%d:%s" % (ctl, rng.choice(["0d0100", "030100", "0d0105"]))
+                goaway[0] = max(0, goaway[0] - 4 * rng.randrange(0, 3))
+                return "s%d:0701%02x" % (ctl, goaway[0])
+
+            head = ["o%d" % ctl, "s%d:000400" % ctl, main]
+            rng.shuffle(head) if rng.random() < 0.2 and head.index("o%d" % ctl) < head.index("s%d:000400" % ctl) else None
+            ops += head
+            for _ in range(rng.randrange(1, 7)):
+                r = rng.random()
+                if r < 0.3:
+                    ops.append("gu%d" % rng.randrange(1, 3))
+                elif r < 0.6:
+                    ops.append("gw%d:%d" % (gsid, rng.choice([1, 2, 3, 7, 100])))
+                else:
+                    ops.append(ctl_frame())
+            if rng.random() < 0.5:
+                ops += ["gu1", "gw%d:100" % gsid, ctl_frame()]
+            if rng.random() < 0.3:
+                # a request afterwards (a client that has seen GOAWAY refuses to send one)
+                ops += open_request(server, 0, rq0, cfgs) + ["gw0:100", "q0.fi", "gw0:%d" % rng.choice([3, 100])]
+            L.append("out %s %s %s" % (role, cfgs, " ".join(ops)))
+
+        # (d) GOAWAY queued behind a SETTINGS frame that is only partly written: `shutdown` is called as soon as the builder
+        #     returns, the credit of the control stream comes in small grants and stops anywhere
+        for _ in range(120 if big else 40):
+            server = rng.random() < 0.5
+            role = "server" if server else "client"
+            own = [3, 7, 11] if server else [2, 6, 10]
+            wc = rng.choice([0, 1, 2, 3, 5, 7, 20, 26, 27])
+            cfgs = base_cfg(server, "wc=%d" % wc)
+            shut = "conn.S:%d" % rng.randrange(0, 3) if server else "drv.S"
+            ops = [shut]
+            if wc == 0:
+                ops += ["gw%d:1" % own[1], "gw%d:1" % own[2]]
+            rng.shuffle(ops)
+            ops += drip(own[0], rng.randrange(0, 56))
+            if rng.random() < 0.3:
+                ops += [shut] + drip(own[0], rng.randrange(0, 8))
+            L.append("out %s %s %s" % (role, cfgs, " ".join(ops)))
+        return L
+
     def cases(self, tier, rng):
-        return self.wbuf_cases(tier, rng) + self.out_cases(tier, rng)
+        return self.wbuf_cases(tier, rng) + self.out_cases(tier, rng) + self.grease_backpressure_cases(tier, rng)
 
     def extra(self, tier, rng, ctx):
         # latent, outside the property's quantifier (h3 never sends PUSH_PROMISE and has no API to
@@ -369,14 +537,33 @@ class C14(Prop):
             kind = w[1].split(":")[0]
             return "wbuf/%s/%s" % (kind, "panic" if impl.startswith("panic") else impl.split("=")[0].split(" ")[0])
         cfg = w[2]
-        mode = "g1" if "g1" in cfg.split(",") else "g0"
-        lim = "lim" if any(k in cfg for k in ("wc=", "uc=", "bc=")) else "unl"
-        pend = "pend" if "pending=[]" not in impl and not impl.startswith("valid") or ("pending=[" in impl and "pending=[]" not in impl) else "done"
+        grease = "g1" in cfg.split(",")
+        limited = any(k in cfg for k in ("wc=", "uc=", "bc="))
+        # how the logs are compared: literal bytes (grease off), shapes with the reserved ids masked (grease on), and of those
+        # the runs under credit limits (`shape-credit`: byte counts depend on the ids being 8-byte varints on both sides)
+        mode = "literal" if not grease else ("shape-credit" if limited else "shape")
+        lim = "lim" if limited else "unl"
+        pend = "pend" if "pending=[" in impl and "pending=[]" not in impl else "done"
         feat = ""
-        if ":sh=TG" in impl:
+        toks = [t for t in impl.split() if ":sh=" in t]
+        uni = [t.split(":sh=", 1)[1] for t in toks if int(t.split(":", 1)[0]) % 4 >= 2]
+        bidi = [t.split(":sh=", 1)[1].split(",")[0] for t in toks if int(t.split(":", 1)[0]) % 4 < 2]
+        if any(u.startswith("TG") or u.startswith("~g") for u in uni):
             feat += "+greasestream"
-        if "/G(" in impl:
+        if any(u.startswith("~g") or u.startswith("TG/~") or u.split(",")[0] == "TG" for u in uni):
+            feat += "+greasestreamcut"
+        if any("G(" in b for b in bidi):
             feat += "+greaseframe"
+        if any(b.split("/")[-1].startswith(("~g", "~G:")) for b in bidi):
+            feat += "+greaseframecut"
+        if "~S:" in impl:
+            feat += "+settingscut"
+
+        def datas_then_headers(b):
+            kinds = [f.lstrip("~").split("(")[0].split(":")[0] for f in b.split("/") if f]
+            return kinds.count("0") >= 2 and "1" in kinds[len(kinds) - kinds[::-1].index("0"):]
+        if any(datas_then_headers(b) for b in bidi):
+            feat += "+multidata-trailers"
         if ",writing" in impl:
             feat += "+midwrite"
         return "out/%s/%s/%s/%s/%s%s" % (w[1], mode, lim, impl.split(" ")[0].split(":")[0], pend, feat)
